@@ -48,7 +48,10 @@ let run_case (a : string array) : string =
   | "ctor" ->
     let tag = nat_of_int (int_of_string a.(1)) in
     out (show_res show_fields (model_ct tag a 2)) (show_fields (spec_ct tag a 2)) (ctor_dom a 2)
-  | "add" | "sub" ->
+  | "add" | "sub" | "addeq" | "subeq" | "addl" ->
+    (* c + n, c - n and the other spellings (c += n, c -= n, n + c): the header defines the compound forms through
+       the binary ones, so one model serves them all *)
+    let op = (match op with "addeq" | "addl" -> "add" | "subeq" -> "sub" | o -> o) in
     let tag = nat_of_int (int_of_string a.(1)) in
     let n = zi a 8 in
     let m = bind (model_ct tag a 2) (fun c -> if op = "add" then plus64 tag c n else minus64 tag c n) in
